@@ -33,6 +33,7 @@ func runC17(c *Ctx) {
 	c17Quote(c)
 	c17Contain(c)
 	c17MergeSites(c)
+	c17ReflectElem(c)
 }
 
 // onlyErrorReturns: every normal exit reachable from start is a return whose
